@@ -119,6 +119,12 @@ func (lexer *CommonLex) CreateProgram(expr string) (prog []Inst, err error) {
 	errors := fmt.Sprintf("Failed to compile '%s'\n", expr)
 	currentPosInLine :=
 		len(string(expr)) - len(string(lexer.progBldr.lineAtErr))
+	if currentPosInLine < 0 {
+		// The unparsed remainder recorded by Error() can be longer than
+		// the expression: a pending error token stands for an invalid
+		// byte but takes three bytes when it is put back as text.
+		currentPosInLine = 0
+	}
 	parsedLine := string(expr)[:currentPosInLine]
 	unParsedLine := string(expr)[currentPosInLine:]
 
